@@ -70,6 +70,36 @@ class _Consuming:
         return self.gen.pop(0)
 
 
+class BranchOracle:
+    """Decisions for conditions whose value the representative does not fix (one decision per condition text)."""
+
+    def __init__(self, script=()):
+        self.script, self.log, self.memo = list(script), [], {}
+
+    def decide(self, key):
+        if key not in self.memo:
+            i = len(self.log)
+            self.memo[key] = self.script[i] if i < len(self.script) else True
+            self.log.append((key, self.memo[key]))
+        return self.memo[key]
+
+
+def explore_branches(run, limit=16):
+    """All outcomes of run(oracle) over the undetermined conditions it meets: [(decisions, outcome)] (depth first;
+    NoValue if there are more than `limit` paths)."""
+    results, stack = [], [[]]
+    while stack:
+        script = stack.pop()
+        oracle = BranchOracle(script)
+        outcome = run(oracle)
+        results.append((list(oracle.log), outcome))
+        if len(results) > limit:
+            raise NoValue(f"more than {limit} paths over undetermined conditions")
+        for j in range(len(script), len(oracle.log)):
+            stack.append([v for _, v in oracle.log[:j]] + [False])
+    return results
+
+
 class ClassRef:
     def __init__(self, name):
         self.name = name
@@ -294,7 +324,9 @@ class Interp:
             "collections.defaultdict": PyFunc(self._defaultdict, "defaultdict", True),
             "sympy.utilities.iterables.iterable": PyFunc(lambda x, *a, **k: isinstance(x, (list, tuple, set, dict)), "iterable", True),
             "sympy.utilities.iterables.flatten": PyFunc(lambda x, *a, **k: _flatten(x), "flatten", True),
+            "inspect.signature": PyFunc(self._signature, "signature", True),
             "inspect": Obj("module:inspect", {
+                "signature": PyFunc(self._signature, "signature", True),
                 "isfunction": PyFunc(lambda x: isinstance(x, (Closure, PyFunc)), "isfunction", True),
                 "isclass": PyFunc(lambda x: isinstance(x, ClassRef), "isclass", True)}),
             "keyword": Obj("module:keyword", {"iskeyword": PyFunc(__import__("keyword").iskeyword, "iskeyword")}),
@@ -529,6 +561,31 @@ class Interp:
         if set(changes) - {f.attrs["name"] for f in flds}:
             raise Raised("TypeError")
         return self.call(ClassRef(o.kind), [], kwargs)
+
+    def _signature(self, f, **k):
+        """inspect.signature: the parameter names, in order (Signature.parameters is an ordered mapping)."""
+        names = None
+        if isinstance(f, Closure):
+            a = f.node.args
+            names = [p.arg for p in a.posonlyargs + a.args] + ([a.vararg.arg] if a.vararg else []) + [p.arg for p in a.kwonlyargs] + \
+                ([a.kwarg.arg] if a.kwarg else [])
+        elif isinstance(f, Obj) and isinstance(f.attrs.get("__signature__"), (list, tuple)):
+            names = list(f.attrs["__signature__"])            # a stand-in that states its signature
+        elif isinstance(f, PyFunc):
+            import inspect
+            try:
+                names = list(inspect.signature(f.fn).parameters)
+            except (TypeError, ValueError):
+                raise Raised("ValueError")
+        elif isinstance(f, ClassRef) and f.name in _BUILTIN_TYPES:
+            import inspect
+            try:
+                names = list(inspect.signature(_BUILTIN_TYPES[f.name]).parameters)
+            except (TypeError, ValueError):
+                raise Raised("ValueError")
+        if names is None:
+            return Unk("signature")
+        return Obj("Signature", {"parameters": {n: Obj("Parameter", {"name": n, "fmt": n}) for n in names}, "fmt": f"({', '.join(names)})"})
 
     def _pow(self, a, b, *mod):
         if mod:
@@ -1016,6 +1073,9 @@ class Interp:
         raise NoValue(un(node))
 
     def truth(self, v, node=None) -> bool:
+        if isinstance(v, Unk) and getattr(self, "branch_oracle", None) is not None and node is not None:
+            # a data-dependent condition the representative does not fix: the rule follows it both ways
+            return self.branch_oracle.decide(un(node))
         if isinstance(v, Unk):
             raise NoValue(f"branch on unknown value {v.desc} in {un(node) if node is not None else ''}")
         if isinstance(v, T):
